@@ -19,6 +19,7 @@ type NumSpec[K any] struct {
 	NVals    int
 	// SearchOnly keys are Search probes only (never inserted, never deleted).
 	SearchOnly []K
+	Filler     []K
 }
 
 type numOps[K any] struct {
@@ -116,6 +117,9 @@ func NewNumUniverse[K any](kind, keyType string, mk func() art.Tree[K, int], sp 
 	for i := range keys {
 		u.Probes = append(u.Probes, i)
 	}
+	for _, k := range sp.Filler {
+		u.Filler = append(u.Filler, add(k))
+	}
 	for _, k := range sp.SearchOnly {
 		n := len(keys)
 		if i := add(k); i >= n {
@@ -200,7 +204,7 @@ func numFromBytes[K any](sp AlphaSpec, f func(byte) K) NumSpec[K] {
 		}
 		return out
 	}
-	return NumSpec[K]{Name: sp.Name, Setup: conv(sp.Setup), SetupDel: conv(sp.SetupDel), Free: conv(sp.Free), Probes: conv(sp.Probes), NVals: sp.NVals}
+	return NumSpec[K]{Name: sp.Name, Setup: conv(sp.Setup), SetupDel: conv(sp.SetupDel), Free: conv(sp.Free), Probes: conv(sp.Probes), NVals: sp.NVals, Filler: conv(sp.Filler)}
 }
 
 // fanWindows are the node-size-class windows used for numeric keys.
